@@ -82,6 +82,58 @@ def run(ctx):
     rb = lib.local_calls(F, b, "Document::renumber_bookmarks")
     ctx.ob(R, "bookmarks-renamed", len(rb) == 2 and all(any(c.bb in bl for bl in loops.values()) for c in rb), "renumber_bookmarks is called inside both moving loops", b.where(),
            what="bookmark targets are no longer renamed for every moved object")
+    # the rename map is per pass: between one traversal that applies it and the next insertion into it, it is emptied
+    # (an entry left over from the page-ordering pass would be applied again by the compaction pass)
+    maps = {}
+    for c in rep_ins:
+        o = lib.origin_local(F, b, c.args[0])
+        if o is not None and o[0] is b and not o[2]:
+            maps.setdefault(o[1], []).append(c)
+    trav = lib.local_calls(F, b, "Document::traverse_objects")
+    okc, whyc = bool(maps) and len(trav) >= 2, "rename map or traversals not found"
+    for M, inserts in maps.items():
+        clears = {c.bb for c in b.calls if c.args and re.search(r"BTreeMap::<.*>::clear$", c.fn or "") and (lib.origin_local(F, b, c.args[0]) or (0, None, 1))[1] == M}
+        for t in trav:
+            seen, st_ = set(), [t.bb]
+            while st_:
+                x = st_.pop()
+                if x in seen or (x in clears and x != t.bb):
+                    continue
+                seen.add(x)
+                st_.extend(b.succ[x])
+            late = [i for i in inserts if i.bb in seen and i.bb != t.bb and not b.dominates(i.bb, t.bb)]
+            if late:
+                okc, whyc = False, "after the traversal at line %d the map is filled again (line %d) without being cleared" % (t.ln, late[0].ln)
+    ctx.ob(R, "rename-map-cleared-between-passes", okc, "the rename map is cleared between a traversal and the next pass that fills it", b.where(),
+           what="renumber_objects_with: %s — renames of the page-ordering pass leak into the compaction pass (two objects end up under one number)" % whyc)
+    # bookmark targets: every bookmark of the tree is visited whether or not its parent matched
+    ub = F.fn("Document::update_bookmark_pages")
+    rec = [c for c in ub.calls if c.local and c.cname.endswith("Document::update_bookmark_pages")]
+    okb = False
+    if len(rec) == 1:
+        okb = True
+        for bi in range(ub.n):
+            t = ub.term(bi)
+            if t["k"] != "switch" or t["dty"] != "bool":
+                continue
+            d = ub.def_rv(t["d"])
+            if d and d[2] == "call" and re.search(r"PartialEq(<.*>)?>?::(eq|ne)$|PartialEq for .*::(eq|ne)$", d[3]["f"].get("fn") or ""):
+                # within one turn of the loop: do not go round through the loop header
+                heads = [h for h, bl in ub.loops().items() if bi in bl and rec[0].bb in bl]
+
+                def reach_same_turn(x):
+                    seen, st_ = set(), [x]
+                    while st_:
+                        y = st_.pop()
+                        if y in seen or y in heads:
+                            continue
+                        seen.add(y)
+                        st_.extend(ub.succ[y])
+                    return rec[0].bb in seen
+                if any(reach_same_turn(x) for x in ub.succ[bi]) and not all(reach_same_turn(x) for x in ub.succ[bi]):
+                    okb = False
+    ctx.ob(R, "bookmark-children-always-visited", okb, "the recursion into the children does not depend on whether the parent bookmark matched", ub.where(),
+           what="update_bookmark_pages visits the children of a bookmark only on one outcome of the `page == old` test: a nested bookmark that targets the same page as an ancestor keeps the old id")
     # max_id
     st = lib.stores_to_field(b, "max_id")
     t = [b.rvname(s[2]["rv"], 4) for s in st if s[1] != "T"]
@@ -96,7 +148,30 @@ def run(ctx):
         raise AnchorLost("traverse_object helper not found")
     t0 = tobj[0]
     push = [c for c in t0.calls if re.search(r"Vec::<.*>::push$", c.fn or "")]
-    cont = [c for c in t0.calls if re.search(r"slice::<impl \[T\]>::contains$", c.fn or "")]
-    ok = len(push) == 1 and len(cont) == 1 and t0.dominates(cont[0].bb, push[0].bb)
-    ctx.ob(R, "each-object-once|traverse_object", ok, "a reference is queued only if refs does not contain it yet", t0.where(),
-           what="traverse_objects can queue the same object more than once (cyclic references would never terminate; actions would be applied twice)")
+    # the membership test that guards the push: `list.contains(id)` (false edge) or `set.insert(id)` (true edge) / `set.contains`;
+    # its key must be the whole object id that is pushed (number AND generation), not a part of it
+    ok, why = False, "no membership test guards the push"
+    if len(push) == 1:
+        pv = lib.origin_local(F, t0, push[0].args[1])
+        for g, s2 in lib.taken_edges(t0, push[0].bb):
+            t = t0.term(g)
+            if t["dty"] != "bool":
+                continue
+            d = t0.def_rv(t["d"])
+            if not (d and d[2] == "call"):
+                continue
+            nm = d[3]["f"].get("fn") or ""
+            truth = (t["else"] == s2)
+            is_cont = re.search(r"(slice::<impl \[T\]>|Vec::<.*>|HashSet::<.*>|BTreeSet::<.*>)::contains$", nm) and not truth
+            is_ins = re.search(r"(HashSet|BTreeSet)::<.*>::insert$", nm) and truth
+            if not (is_cont or is_ins):
+                continue
+            kv = lib.origin_local(F, t0, d[3]["args"][1])
+            whole = kv is not None and pv is not None and kv[0] is pv[0] and kv[1] == pv[1] and kv[2] == pv[2]
+            full_ty = "(u32, u16)" in (d[3]["f"].get("full") or "")
+            if whole and full_ty:
+                ok, why = True, ""
+            else:
+                why = "the membership test is keyed by a part of the object id (%s)" % t0.oname(d[3]["args"][1], 3)
+    ctx.ob(R, "each-object-once|traverse_object", ok, "a reference is queued only if its whole id was not seen yet", t0.where(),
+           what="traverse_objects: %s — an object can be queued twice or, worse, skipped: a reference with the same number and another generation is renamed but the object it names is never visited" % why)
